@@ -19,7 +19,7 @@ func c15Doc(rt *rapid.T, want byte) []byte {
 		d := []int{60, 200, 60, 30, 100, 60, 200, 30, 9999, 10000, 10001, 10000}[rapid.IntRange(0, 11).Draw(rt, "depth")]
 		return gen.NestSpec{Depth: d, Pattern: gen.NestPatterns[rapid.IntRange(0, len(gen.NestPatterns)-1).Draw(rt, "pat")], Close: d, Bottom: []string{"1", `"\n"`, ""}[rapid.IntRange(0, 2).Draw(rt, "bottom")]}.Build()
 	case 1, 2: // large containers (size hints)
-		n := []int{9, 33, 9, 33, 200, 9, 33, 65, 200, 1200}[rapid.IntRange(0, 9).Draw(rt, "n")]
+		n := []int{9, 33, 9, 31, 32, 33, 64, 65, 200, 255, 256, 257, 9, 16, 17, 1200}[rapid.IntRange(0, 15).Draw(rt, "n")]
 		var sb strings.Builder
 		obj := rapid.Bool().Draw(rt, "obj")
 		inner := rapid.IntRange(0, 2).Draw(rt, "inner")
